@@ -290,6 +290,57 @@ class Check:
         self.coverage["theorems"] = sorted(set(self.coverage["theorems"]) | set(names))
         return True, info
 
+    def source_tie(self, module, groups=("lattice",)):
+        """Regenerate `DS/Gen/Src*.lean` from the tree under examination (translate/pysrc.py) and
+        re-check the `rfl` theorems of `module` that identify the hand-written model with that
+        transliteration.  Returns (ok, info); a broken tie is not a verdict (DESIGN 2.4)."""
+        from translate import pysrc
+        pysrc.REPO = REPO
+        rep = {}
+        try:
+            with LeanLock():
+                rep = pysrc.main(groups=groups)
+        except Exception as e:  # noqa: BLE001  (unreadable source = broken tie)
+            rep = {"error": "%s: %s" % (type(e).__name__, e)}
+        ok, info = self.lean_obligations(module)
+        info["translator"] = {k: {"untranslatable": v.get("untranslatable", {})} for k, v in rep.items() if isinstance(v, dict)}
+        if "error" in rep:
+            info["translator"]["error"] = rep["error"]
+            ok = False
+        if not ok:
+            # name the theorems whose proofs broke (error line -> enclosing theorem)
+            props_file = os.path.join(LEAN, *module.split(".")) + ".lean"
+            try:
+                lines = open(props_file, encoding="utf-8").read().split("\n")
+            except OSError:
+                lines = []
+            broken = []
+            for f, ln, msg in info.get("errors", []):
+                if f.endswith(module.split(".")[-1] + ".lean"):
+                    for k in range(min(int(ln), len(lines)) - 1, -1, -1):
+                        m = re.match(r"\s*theorem\s+(\S+)", lines[k])
+                        if m:
+                            broken.append(m.group(1))
+                            break
+            info["broken_theorems"] = sorted(set(broken))
+        self.coverage.setdefault("source_tie", {})[module] = {
+            "ok": ok, "theorems": len(info.get("theorems", [])), "broken": info.get("broken_theorems", []),
+            "untranslatable": {k: v["untranslatable"] for k, v in info["translator"].items() if isinstance(v, dict) and v.get("untranslatable")}}
+        if ok:
+            self.coverage["trusted_base"] = sorted(set(self.coverage["trusted_base"]) | {
+                "translate/pysrc.py (ast transliteration of the method bodies; its output is what the rfl theorems compare the model with)"})
+        return ok, info
+
+    def tie_verdict(self, ok, info, what):
+        """after the failing-input search: a broken tie without a concrete failing input is reported as such"""
+        if ok or self.violations:
+            return
+        self.fail("source-tie:" + info.get("module", "?"),
+                  "%s: the model no longer coincides with the source (%s); no failing input found by the search" % (
+                      what, ", ".join(info.get("broken_theorems") or info.get("failed_modules") or ["translator"])),
+                  {"kind": "source-tie", "theorem": info.get("broken_theorems"), "module": info.get("module"),
+                   "untranslatable": info.get("translator"), "errors": info.get("errors", [])[:10]}, no_failing_input=True)
+
     def _lean_sources(self):
         out = []
         for root, _, files in os.walk(os.path.join(LEAN, "DS")):
